@@ -14,6 +14,24 @@ INFO = {
  "c38-agent1": dict(prop="C38", file="p2panda-encryption/src/key_bundle/key_bundle.rs", needs="two long-term bundles: a valid one followed by a not-yet-valid one with the furthest expiry", checks=["C38"]),
  "c40-agent1": dict(prop="C40", file="p2panda/src/streams/sync_metrics.rs", needs="a live-mode session that receives an operation (OperationReceived overwrites the stored metrics) before it finishes", checks=["C40"]),
  "c14-agent1": dict(prop="C14", file="p2panda/src/processor/tasks.rs", needs="two submitters of the same operation both missing the read-locked lookup before either inserts (second insert overwrites the first task)", checks=["C14"]),
+
+ "c07-agent1": dict(prop="C07", file="p2panda-core/src/cursor.rs", needs="advance to height 0 on a log that is not tracked yet (missing log treated as height 0)", checks=["C07"]),
+ "c03-agent1": dict(prop="C03", file="p2panda-core/src/operation.rs", needs="an operation with seq = head - 1 whose backlink is the hash of the head (abs_diff makes the seq check symmetric)", checks=["C03", "C05"]),
+ "c12-agent1": dict(prop="C12", file="p2panda-stream/src/orderer/processor.rs", needs="next() dropped at the get_operation await that follows the commit (re-introduces the repaired ordering)", checks=["C12"]),
+ "c16-agent1": dict(prop="C16", file="p2panda/src/streams/ephemeral_stream.rs", needs="two publishes while the wall clock does not advance (incremented timestamp is not written back)", checks=["C16"]),
+ "c17-agent1": dict(prop="C17", file="p2panda/src/streams/ephemeral_stream.rs", needs="a lagged item in front of queued valid messages (lagged arm returns Pending again)", checks=["C17"]),
+ "c25-agent1": dict(prop="C25", file="p2panda-sync/src/protocols/topic_handshake.rs", needs="the stream closes right after the initiator's Topic: acceptor completes without the final Done", checks=["C25"]),
+ "c26-agent1": dict(prop="C26", file="p2panda-net/src/codec.rs", needs="a chunk boundary inside the last four bytes of a frame (available-bytes check forgets the 4-byte prefix) -> slice panic", checks=["C26"]),
+ "c32-agent1": dict(prop="C32", file="p2panda-auth/src/group/crdt/state.rs", needs="a member with different member counters on both sides and the older side holding the higher access counter", checks=["C32"]),
+ "c36-agent1": dict(prop="C36", file="p2panda-encryption/src/data_scheme/group_secret.rs", needs="extend() of two bundles whose latest secrets have colliding timestamps, lower id first", checks=["C36"]),
+ "c06-agent2": dict(prop="C06", file="p2panda-core/src/logs.rs", needs="remote knows the author but lacks a log whose local height is 0", checks=["C06"]),
+ "c02-agent2": dict(prop="C02", file="p2panda-core/src/operation.rs", needs="a header carrying both a payload hash and a backlink (field_count one too small)", checks=["C02", "C01"]),
+ "c14-agent2": dict(prop="C14", file="p2panda/src/processor/tasks.rs", needs="two waiters on one task: the first take()s the shared result", checks=["C14"]),
+ "c13-agent2": dict(prop="C13", file="p2panda-stream/src/processors/composed.rs", needs="at least four items ready in the first stage at once (burst drain drops the 4th)", checks=["C13"], note="outside the bound of the C13 harnesses (<= 2 items per stage in the quick tier)"),
+ "c38-agent2": dict(prop="C38", file="p2panda-encryption/src/key_registry.rs", needs="two one-time bundles [valid, later-added and meanwhile expired]: the expired one is popped", checks=["C38"]),
+ "c34-agent2": dict(prop="C34", file="p2panda-encryption/src/message_scheme/ratchet.rs", needs="ooo_tolerance > max_forward + 1 and several forward calls before a late generation is requested (queue truncated too short)", checks=["C34"]),
+ "c40-agent2": dict(prop="C40", file="p2panda/src/streams/sync_metrics.rs", needs="a session failing after its sync phase finished (stored bytes added again on Failed)", checks=["C40"]),
+ "c33-agent2": dict(prop="C33", file="p2panda-auth/src/group/crdt/state.rs", needs="see notes.md", checks=["C33"]),
 }
 INFO.update(json.load(open(os.path.join(S, "extra_info.json"))) if os.path.exists(os.path.join(S, "extra_info.json")) else {})
 rows = []
